@@ -2,6 +2,7 @@ package main
 
 import (
 	"fmt"
+	"time"
 
 	txfile "github.com/elastic/go-txfile"
 
@@ -31,6 +32,16 @@ func runSched(rep *Report) {
 		s, err := sched.NewSys(r, cfg)
 		if err != nil {
 			rep.Failures = append(rep.Failures, FailureRec{Prop: "C09", Kind: "setup", Msg: err.Error(), Seed: *fSeed, Program: i})
+			continue
+		}
+		if i%8 == 7 {
+			// File.Close called while a write transaction is open: it has to wait for the writer, and
+			// until the writer is done it must not keep readers out (Close takes the reserved lock first)
+			for _, f := range closeBehindWriter(s.F, r) {
+				rep.Failures = append(rep.Failures, FailureRec{Prop: "C09", Kind: f[0], Msg: f[1], Seed: *fSeed, Program: i})
+			}
+			rep.Programs++
+			rep.Markers["close-behind-writer"]++
 			continue
 		}
 		var bodies []func(*sched.Thread)
@@ -98,4 +109,76 @@ func runSched(rep *Report) {
 			break
 		}
 	}
+}
+
+// closeBehindWriter: writer open, Close started, readers come and go, writer ends, Close returns.
+func closeBehindWriter(f *txfile.File, r *engine.RNG) (fails [][2]string) {
+	fail := func(kind, format string, a ...interface{}) { fails = append(fails, [2]string{kind, fmt.Sprintf(format, a...)}) }
+	wtx, err := f.Begin()
+	if err != nil {
+		fail("begin", "Begin failed: %v", err)
+		return
+	}
+	if p, err := wtx.Alloc(); err == nil {
+		p.SetBytes(make([]byte, wtx.PageSize()))
+	}
+	closed := make(chan error, 1)
+	go func() {
+		defer func() {
+			if x := recover(); x != nil {
+				closed <- fmt.Errorf("panic: %v", x)
+			}
+		}()
+		closed <- f.Close()
+	}()
+	time.Sleep(20 * time.Millisecond)
+	select {
+	case err := <-closed:
+		fail("close-early", "File.Close returned (%v) while a write transaction is open", err)
+		return
+	default:
+	}
+	readers := 1 + r.Intn(3)
+	for k := 0; k < readers; k++ {
+		done := make(chan error, 1)
+		go func() {
+			rtx, err := f.BeginReadonly()
+			if err == nil {
+				_ = rtx.Root()
+				err = rtx.Close()
+			}
+			done <- err
+		}()
+		select {
+		case err := <-done:
+			if err != nil {
+				fail("reader", "read transaction while Close waits for the writer failed: %v", err)
+			}
+		case <-time.After(3 * time.Second):
+			fail("close-blocks-readers", "BeginReadonly does not return while File.Close is waiting for an open write transaction (the writer is not committing): readers are kept out by a Close that can not proceed")
+			// let everything go
+			wtx.Rollback()
+			<-done
+			<-closed
+			return
+		}
+	}
+	var werr error
+	if r.Chance(50) {
+		werr = wtx.Commit()
+	} else {
+		werr = wtx.Rollback()
+	}
+	if werr != nil {
+		fail("writer-end", "ending the write transaction while Close waits failed: %v", werr)
+	}
+	select {
+	case err := <-closed:
+		if err != nil {
+			fail("close", "File.Close failed: %v", err)
+		}
+	case <-time.After(3 * time.Second):
+		fail("close-stuck", "File.Close does not return after the last transaction ended")
+	}
+	return
 }
